@@ -150,7 +150,31 @@ func (g *thrGroup) reconstructStateful(run *mon.Run, signers []int, trusted bool
 		run.Violate("C06:constructor", err.Error(), rep)
 		return
 	}
+	// every other object gets its shares the way a receive loop delivers them: read into ONE buffer that
+	// is overwritten by the next share; and the message buffer given to the constructor is overwritten
+	// once the object exists. The object must have taken what it needs.
+	reuse := (len(signers)+signers[0])%2 == 0 && !participant
+	var shareBuf []byte
+	if reuse {
+		run.Count("reconstructions.stateful-with-reused-buffers", 1)
+		msgBuf := append([]byte{}, g.msg...)
+		ins, err = crypto.NewBLSThresholdSignatureInspector(g.gpk, g.pks, g.t, msgBuf, g.tag)
+		if err != nil {
+			run.Violate("C06:constructor", err.Error(), rep)
+			return
+		}
+		for i := range msgBuf {
+			msgBuf[i] ^= 0x77
+		}
+		shareBuf = make([]byte, 48)
+		rep["reused_buffers"] = true
+	}
 	run.Guard("stateful-sequence", rep, func() {
+		defer func() {
+			for i := range shareBuf {
+				shareBuf[i] = 0xEE
+			}
+		}()
 		for i, s := range signers {
 			if _, e := ins.ThresholdSignature(); i <= g.t && !crypto.IsNotEnoughSharesError(e) {
 				run.Violate("C06:not-enough-shares-error", fmt.Sprintf("ThresholdSignature with %d < t+1 shares: error %v", i, e), rep)
@@ -159,11 +183,20 @@ func (g *thrGroup) reconstructStateful(run *mon.Run, signers []int, trusted bool
 				run.Violate("C06:enough-shares", fmt.Sprintf("EnoughShares()=%v after %d adds (t=%d)", ins.EnoughShares(), i, g.t), rep)
 			}
 			var enough, valid bool
+			shareArg := crypto.Signature(g.share[s])
+			if reuse {
+				copy(shareBuf, g.share[s])
+				shareArg = shareBuf
+			}
 			if trusted {
-				enough, err = ins.TrustedAdd(s, g.share[s])
+				enough, err = ins.TrustedAdd(s, shareArg)
 				valid = true
 			} else {
-				valid, enough, err = ins.VerifyAndAdd(s, g.share[s])
+				valid, enough, err = ins.VerifyAndAdd(s, shareArg)
+			}
+			if reuse && (err != nil || !valid || enough != (i+1 > g.t)) {
+				run.Violate("C06:stateful-object-keeps-callers-buffers", fmt.Sprintf("the message buffer was overwritten after construction and shares arrive in one reused buffer: add #%d of signer %d (a valid share): valid=%v enough=%v err=%v", i, s, valid, enough, err), rep)
+				return
 			}
 			if err != nil || !valid || enough != (i+1 > g.t) {
 				run.Violate("C06:add-result", fmt.Sprintf("add #%d of signer %d: valid=%v enough=%v err=%v", i, s, valid, enough, err), rep)
@@ -189,6 +222,10 @@ func (g *thrGroup) reconstructStateful(run *mon.Run, signers []int, trusted bool
 		}
 		run.Eval(1)
 		run.Count("reconstructions.stateful", 1)
+		if reuse && (err != nil || err2 != nil || !bytes.Equal(out, g.E) || !bytes.Equal(out2, g.E)) {
+			run.Violate("C06:stateful-object-keeps-callers-buffers", fmt.Sprintf("t+1 valid shares were added from one receive buffer (overwritten by each next share) and the message buffer was overwritten after construction: ThresholdSignature (signers=%v) = %x (err %v), reference %x", signers, []byte(out), err, g.E), rep)
+			return
+		}
 		if err != nil || err2 != nil || !bytes.Equal(out, g.E) || !bytes.Equal(out2, g.E) {
 			run.Violate("C06:stateful-reconstruction:"+label, fmt.Sprintf("ThresholdSignature (signers=%v) = %x (err %v), reference %x", signers, []byte(out), err, g.E), rep)
 		}
